@@ -277,9 +277,13 @@ def gather_args(task, argvals):
     return out
 
 
-def gather_index(task, n):
+def gather_index(task, n, skip=()):
+    """`skip`: declared inputs this run does not read (a report that needs its reference data only when asked to
+    calibrate): they are not asked for their value."""
     out = []
     for idx in range(n):
+        if idx in skip:
+            continue
         t = task.input_tasks[idx]
         if _is_task(t):
             out.append((idx, t.value))
